@@ -181,3 +181,10 @@ U(id="C07.bcj.writer", props=["C07", "C11"], file="filter/bcj.rs",
   kind="bounded", bound="10/12-byte inputs, ARM filter",
   functions=[("src/filter/bcj.rs", "write", "Write for BCJWriter")],
   contract="sink = encoder filter applied to the concatenation of the writes (known finding D17: fails when a write leaves an unconverted tail)")
+
+U(id="C01.lzd.view", props=["C01", "C04", "C06", "C07", "C05", "C16"], file="lz/lz_decoder.rs",
+  harnesses=["c01_lzd_repeat", "c07_lzd_pending_resume", "c01_lzd_put_flush", "c05_lzd_copy_uncompressed"],
+  kind="bounded", bound="dictionary ring of N=6 bytes, match length <= 2N; every ring state satisfying the representation invariant, every dist/len/limit",
+  functions=[("src/lz/lz_decoder.rs", "repeat"), ("src/lz/lz_decoder.rs", "repeat_pending"), ("src/lz/lz_decoder.rs", "put_byte"), ("src/lz/lz_decoder.rs", "get_byte"),
+             ("src/lz/lz_decoder.rs", "flush"), ("src/lz/lz_decoder.rs", "set_limit"), ("src/lz/lz_decoder.rs", "reset"), ("src/lz/lz_decoder.rs", "copy_uncompressed"), ("src/lz/lz_decoder.rs", "new", "LZDecoder")],
+  contract="view = history H: repeat(d,l): Err and unchanged iff d>=|H|, else appends min(room,l) bytes each equal to the byte d+1 back (overlap replicates), rest pending; repeat_pending resumes to the same bytes; put/get/flush/set_limit/reset/copy_uncompressed on H; representation invariant preserved; no panic")
